@@ -89,6 +89,26 @@ def gen(ctx):
     for rs in ([smallr], [listr], [binr], [smallr, listr]):
         for tail_ in (b"", b"foo: bar\n", b"foo: bar\nlist_OK\n", b"binary: 3\nabc\n", b"x"):
             add_interrupted(rs, tail_)
+    # a long history: hundreds of distinct field names seen on this connection (whatever cache of names the connection keeps is
+    # full, about to be trimmed, just trimmed), then a response whose first lines arrive, the receive is interrupted, and the
+    # stream ends: still unclean
+    def name(i):
+        s_ = ""
+        i += 26
+        while i:
+            s_ = chr(97 + i % 26) + s_
+            i //= 26
+        return "k" + s_
+    for n_names in (100, 1000, 1020, 1024, 1100, 5000) if ctx.tier == "quick" else (100, 500, 1000, 1010, 1020, 1023, 1024, 1025, 1100, 2048, 5000, 20000):
+        hist = {"form": "single", "frames": [{"fields": [(name(i), "v") for i in range(n_names)], "bin": None, "binpos": None}], "error": None, "partial": None}
+        for n_new in (1, 40):
+            part = b"".join(f"{name(n_names + j)}: w\n".encode() for j in range(n_new))
+            st1 = g.enc_response(hist)
+            for fl in "ab":
+                cases.append(" ".join(["recv", fl, "0", "eof", hexs(st1), hexs(part), "!"]))
+                expect.append([g.show_response(hist), "io", "ueof"])
+                cases.append(" ".join(["recv", fl, "0", "eof", hexs(st1), hexs(part), "!", hexs(b"OK\n")]))
+                expect.append([g.show_response(hist), "io", g.show_response({"form": "single", "frames": [{"fields": [(name(n_names + j), "w") for j in range(n_new)], "bin": None, "binpos": None}], "error": None, "partial": None}), "eof"])
     # greeting: every proper prefix of a valid greeting line is an unexpected EOF
     for v in (b"0.23.5", b"x", "0.21.11 ä".encode()):
         gr = b"OK MPD " + v + b"\n"
